@@ -46,8 +46,10 @@ func cmdConc(args []string) {
 	gated := fs.Bool("gated", false, "deterministic gated schedules instead of perturbed ones")
 	sched := fs.String("sched", "", "file of model behaviours (MC_ConcEmit) to replay, one history each")
 	raw := fs.Bool("raw", false, "no store decorator at all: the database runs on the adapter itself (code that asks the store for optional interfaces takes the path it takes in production)")
+	family := fs.String("family", "", "force one family of racing programs in every history: index")
 	fs.Parse(args)
 	concRaw = *raw
+	concFamily = *family
 	var recs []*schedRecord
 	if *sched != "" {
 		recs = loadSchedules(*sched)
@@ -176,6 +178,7 @@ func (g *Gen) concOp(c string, gi int) E {
 }
 
 var concRaw bool
+var concFamily string
 
 func runConc(seed int64, be string, maxG, opsPer int) ([][]byte, map[string]int) {
 	p := &Profile{Name: "conc", NumTable: "general", TimeTable: "general", Colls: 1, MaxDocs: 6, Indexes: true, W: weights(nil), NoGenIds: true}
@@ -278,6 +281,28 @@ func runConc(seed int64, be string, maxG, opsPer int) ([][]byte, map[string]int)
 		}
 		progs[0][0] = mk(a, bb)
 		progs[1][0] = mk(bb, a)
+	}
+	// index catalog races: goroutines create (and drop) the index on one field that does not exist yet at the same
+	// moment; exactly one creation may succeed, and what the catalog and the index hold afterwards is what one
+	// order of the calls leaves
+	if (g.chance(0.15) || concFamily == "index") && G >= 2 {
+		f := g.pick([]string{"s", "k", "n.a", "xy"})
+		for gi := 0; gi < G; gi++ {
+			progs[gi][0] = E{"op": "CreateIndex", "c": c, "f": B(f)}
+			if len(progs[gi]) > 1 {
+				switch (gi + g.r.Intn(2)) % 4 {
+				case 0:
+					progs[gi][1] = E{"op": "DropIndex", "c": c, "f": B(f)}
+				case 1:
+					progs[gi][1] = E{"op": "ListIndexes", "c": c}
+				case 2:
+					progs[gi][1] = E{"op": "HasIndex", "c": c, "f": B(f)}
+				}
+			}
+		}
+		if G >= 3 && g.chance(0.5) {
+			progs[2][0] = E{"op": "Insert", "c": c, "docs": []interface{}{g.doc(AStr(g.pick(g.ids)))}}
+		}
 	}
 	// process-wide state behind criteria: every goroutine evaluates Like criteria with patterns nobody has used
 	// before (and a few that everybody uses), through reads and through the selection of bulk writes
